@@ -124,6 +124,11 @@ def d1_threading(ctx):
                         and (kwarg(bd, "side") is None or const_value(kwarg(bd, "side")) == (True, "left")):
                     edges = expand_name(duc, bd.args[1], sls[0])
                     oks = rng_ok and norm(edges) == norm(ast.parse("np.r_[s0_arr, sr.ns]", mode="eval").body)
+                    if rng_ok and not oks and norm(edges) == norm(ast.parse("np.r_[s0_arr, s1_arr[-1]]", mode="eval").body):
+                        # the end of the last chunk closes the edges: right when the chunks are contiguous, s1_arr[i] == s0_arr[i + 1] (s1_arr = s0_arr + step over an arange of that step)
+                        body_txt = [src(st_).replace(" ", "") for st_ in walk_function(fc.node) if isinstance(st_, ast.Assign)]
+                        step_ = [t_[len("s1_arr=s0_arr+"):] for t_ in body_txt if t_.startswith("s1_arr=s0_arr+")]
+                        oks = bool(step_) and any(t_.startswith("s0_arr=np.arange(0,") and t_.endswith("," + step_[0] + ")") for t_ in body_txt)
     ctx.check(oks, fc, sls[0] if sls else fc.node, sls[0] if sls else "slices", "row ranges come from searchsorted of the sorted samples at the chunk bounds",
               "chunk row ranges are not searchsorted(wf_flat['sample'], [s0, s1])", key="cbin->chunk:slices")
     return b2, dl[0]
@@ -429,6 +434,42 @@ def d5_gather(ctx):
                           norm(ast.parse(f"arr[cind[{src(ti)}], :][:, sind[{src(ti)}]]", mode="eval").body),
                           norm(ast.parse(f"arr[cind[{src(ti)}][:, np.newaxis], sind[{src(ti)}]]", mode="eval").body),
                           norm(ast.parse(f"arr[np.ix_(cind[{src(ti)}], sind[{src(ti)}])]", mode="eval").body))
+    if g and not okg:
+        # block form: wfs[R] = arr[cind[R][:, :, None], sind[R][:, None, :]]  - rows R of both index tables, broadcast (spike, channel, sample)
+        def _blocked(e):
+            """(table name, row selector text, position of the inserted axis) of an index expression made of row selection and newaxis insertion on a 2-D index table"""
+            chain = []
+            cur = e
+            while isinstance(cur, ast.Subscript):
+                chain.append(cur.slice)
+                cur = cur.value
+            base = loc_name(cur)
+            rows, newpos, ndim = None, None, 2
+            for sl in reversed(chain):
+                el = list(sl.elts) if isinstance(sl, ast.Tuple) else [sl]
+                pos = 0
+                for k_, x in enumerate(el):
+                    is_new = (isinstance(x, ast.Constant) and x.value is None) or src(x) in ("np.newaxis", "numpy.newaxis")
+                    if is_new:
+                        if newpos is not None:
+                            return None
+                        newpos = pos
+                        ndim += 1
+                        pos += 1
+                    elif isinstance(x, ast.Slice) and x.lower is None and x.upper is None and x.step is None:
+                        pos += 1
+                    elif k_ == 0 and isinstance(x, ast.Slice) and x.step is None and rows is None:
+                        rows = norm(x)
+                        pos += 1
+                    else:
+                        return None
+            return base, rows, newpos
+        t, v = g[0].targets[0], g[0].value
+        tel = list(t.slice.elts) if isinstance(t.slice, ast.Tuple) else [t.slice]
+        if isinstance(tel[0], ast.Slice) and all(isinstance(x, ast.Slice) and x.lower is None and x.upper is None for x in tel[1:]) and isinstance(v, ast.Subscript) \
+                and loc_name(v.value) == "arr" and isinstance(v.slice, ast.Tuple) and len(v.slice.elts) == 2:
+            a_, b_ = _blocked(v.slice.elts[0]), _blocked(v.slice.elts[1])
+            okg = a_ is not None and b_ is not None and a_ == ("cind", norm(tel[0]), 2) and b_ == ("sind", norm(tel[0]), 1)
     ctx.check(okg, fi, g[0] if g else fi.node, g[0] if g else "wfs[i]", "waveform i = arr[cind[i] rows, sind[i] columns]", "waveform i is not gathered from row i of both index tables", key="gather")
     # NaN row
     vs = [c for c in find(fi.node, ast.Call, nested=False) if call_name(c) == "vstack"]
@@ -625,6 +666,40 @@ def dS_shared(ctx):
                             'a later request returns rows / samples selected by a mask or table an earlier request narrowed: the loader no longer returns what was saved')
 
 
+def d7_templates(ctx):
+    ctx.rule("D7", "a unit's template is the NaN-aware median over exactly its rows of the traces file (first_index .. last_index inclusive), along the waveform axis")
+    repo = ctx.repo
+    fc = repo.fn(MOD + ".extract_wfs_cbin")
+    du = DefUse(fc.node)
+    from sa.common import expand_deep
+    st = [n for n in walk_function(fc.node) if isinstance(n, ast.Assign) and isinstance(n.targets[0], ast.Subscript) and "template" in (loc_name(n.targets[0].value) or "")]
+    if not st:
+        raise AnchorMissing("extract_wfs_cbin: no store into the templates array")
+    NAN_AWARE = {"nanmedian": "median ignoring NaN"}
+    PLAIN = {"median": "nanmedian", "mean": "nanmean", "quantile": "nanquantile", "percentile": "nanpercentile"}
+    for n in st:
+        v = expand_deep(du, n.value, n)
+        while isinstance(v, ast.Call) and call_name(v) in ("astype", "float32", "asarray") and (v.args or isinstance(v.func, ast.Attribute)):
+            v = v.func.value if call_name(v) == "astype" else v.args[0]
+        if not (isinstance(v, ast.Call) and v.args):
+            raise AnalysisError(f"extract_wfs_cbin: template value `{src(n.value)[:60]}` is not a reduction call")
+        fn = call_name(v)
+        # the traces carry NaN rows: extract_wfs_array pads every neighbourhood to a fixed number of rows with the NaN row, and the number of padding rows depends
+        # on the peak channel of the individual SPIKE (probe ends), not on the unit
+        ctx.check(fn in NAN_AWARE, fc, n, f"{fn}(...)", "templates ignore the NaN padding rows of individual waveforms",
+                  f"`{src(n)[:90]}` reduces with np.{fn}: the traces hold NaN padding rows whose number depends on each spike's own peak channel (probe ends), so for a unit whose spikes "
+                  f"do not all share one peak channel a row that is NaN in a single waveform becomes NaN in the template although the other waveforms have data there - the template is no "
+                  f"longer the median of that unit's rows of the traces file (use np.{PLAIN.get(fn, 'nanmedian')})", key="template-nan", name_free=True)
+        ax = kwarg(v, "axis") or (v.args[1] if len(v.args) > 1 else None)
+        ctx.check(ax is not None and const_value(ax) == (True, 0), fc, n, f"axis={src(ax) if ax is not None else None}", "the reduction runs over the unit's waveforms (axis 0)",
+                  "the template is not reduced along the waveform axis", key="template-axis", name_free=True)
+        rows = v.args[0]
+        okr = isinstance(rows, ast.Subscript) and isinstance(rows.slice, ast.Slice) and rows.slice.step is None and rows.slice.lower is not None and rows.slice.upper is not None \
+            and src(rows.slice.lower).endswith("first_index") and src(rows.slice.upper).replace(" ", "").endswith("last_index+1")
+        ctx.check(okr, fc, n, f"rows {src(rows.slice) if isinstance(rows, ast.Subscript) else src(rows)[:40]}", "the rows are first_index .. last_index inclusive",
+                  f"the template of a unit is computed over rows `{src(rows)[:60]}`, not [first_index : last_index + 1] of the traces", key="template-rows", name_free=True)
+
+
 def run(ctx):
     ctx.run(dS_shared)
     r = ctx.run(d1_threading)
@@ -636,3 +711,4 @@ def run(ctx):
     ctx.run(d4_rows)
     ctx.run(d5_gather)
     ctx.run(d6_selection)
+    ctx.run(d7_templates)
